@@ -63,7 +63,7 @@ func runHistory(c *vk.Ctx, cfg cfgT, hist []int, idx int64) bool {
 	scfg := rig.StepCfg{Role: cfg.role, HeartBtInt: cfg.hb, Limits: &session.IntLimits{Min: cfg.lim[0], Max: cfg.lim[1]},
 		Username: "me", Password: "secret",
 		OnLogon: func(ls *session.LogonSettings) error {
-			if ls.Username == rig.BadUser {
+			if !rig.Approve(ls.Username, ls.Password) {
 				return errors.New("refused")
 			}
 			return nil
